@@ -1865,7 +1865,7 @@ func funcLocaltime(v any) any {
 }
 
 func epochToArray(v float64, loc *time.Location) []any {
-	t := time.Unix(int64(v), int64((v-math.Floor(v))*1e9)).In(loc)
+	t := time.Unix(int64(math.Floor(v)), int64((v-math.Floor(v))*1e9)).In(loc)
 	return []any{
 		t.Year(),
 		int(t.Month()) - 1,
